@@ -63,7 +63,7 @@ def run_equiv(prop, tier, names, only=None, family=None, workers=8):
             if not rep:
                 d["status"], d["detail"] = "inconclusive", "cex-not-reproduced: " + rr.stdout.decode(errors="replace")[-200:]
         info = "; ".join("%s=%s" % (k, d.get(k)) for k in ("output_bits", "structurally_identical_bits", "sat_calls", "merged", "graph_nodes") if k in d)
-        other = "SP 800-38D / FIPS-197 specification" if n.startswith("aes256gcm") else "reference unit"
+        other = "SP 800-38D / FIPS-197 specification" if n.startswith("aes256gcm") else ("specification model (irsym/*_spec.py)" if ("-spec" in n or "-forgery" in n or "-inplace" in n) else "reference unit")
         return vlib.ExtraResult(name, family or ("e2-" + re.sub(r"-[a-z0-9]+$", "", n)), d["status"],
                                 desc="E2 irsym: %s == %s on shared symbolic inputs (bit-level graph; %s)" % (n, other, info),
                                 bounds="public shape %s; all other inputs symbolic" % ps, wall=d.get("wall_s", time.time() - t0),
